@@ -45,3 +45,9 @@ VARIANTS += [
          [(PA18, "            if (isinstance(value, float) and value.is_integer()) or isinstance(", "            if (isinstance(value, float) and int(value) == value) or isinstance(")],
          ("C18.4", "Parameter.validate:int-branch-total"), ("C18",)),
 ]
+UN3 = "src/jaqalpaq/emulator/unitary.py"
+VARIANTS += [
+    fire("c03-pairing-roles-exchanged",
+         [(UN3, "zip(gatedef.parameters, gate.parameters.values())", "zip(gate.parameters.values(), gatedef.parameters)")],
+         ("C03.3", "parameter-pairing"), ("C03",)),
+]
